@@ -5,6 +5,7 @@ mod c_gv;
 mod c_depth;
 mod c_crash;
 mod c_sig;
+mod c_static;
 mod c_value;
 mod enc;
 
@@ -62,13 +63,14 @@ fn main() {
     let specs: Vec<Spec> = match id {
         "C01" => {
             run.rule = "generated (signature, value, endian, offset 0..15, route) from a byte string; zvariant's bytes are strictly decoded by the reference unmarshaller, compared as values (dict entries as multiset) and re-marshalled byte-exactly; non-trivial = signature contains a container or string-like type and the encoding is longer than 8 bytes; distinct by hash(signature, bytes, endian, offset)".into();
-            vec![spec("dyn", 400_000, 20_000_000, 160, c_dbus::c01_dyn)]
+            vec![spec("dyn", 400_000, 20_000_000, 160, c_dbus::c01_dyn), spec("static", 200_000, 10_000_000, 120, c_static::static_case)]
         }
         "C02" => {
             run.rule = "generated (signature, value, endian, offset, route); decode(encode(v)) compared with v under the reference value AST (bitwise f64, dict as multiset) and consumed == encoded length; non-trivial = container nesting >= 2, or an empty array of a container type, or offset % 8 != 0; distinct by hash(signature, bytes, endian, offset)".into();
             let mut v = vec![spec("dyn-dbus", 300_000, 10_000_000, 160, c_dbus::c02_dyn(Format::DBus))];
             #[cfg(feature = "gvariant")]
             v.push(spec("dyn-gvariant", 300_000, 10_000_000, 160, c_dbus::c02_dyn(Format::GVariant)));
+            v.push(spec("static", 200_000, 10_000_000, 120, c_static::static_case));
             v
         }
         "C03" => {
@@ -96,7 +98,7 @@ fn main() {
         }
         "C08" => {
             run.rule = "triples (a, b, c) of dynamic values of one generated type (incl. NaN, +-0, fds, maybe): b and c are copies, one-leaf near misses or fresh values; checked: reflexive/symmetric/transitive ==, cmp antisymmetric/transitive/consistent with == and partial_cmp, equal => equal hash, try_clone / try_to_owned twins keep value, equality, hash and signature, value_signature() == the type it was built with == the signature carried by its encoded variant; non-trivial = nesting depth >= 2 and the type contains a double or a dict; distinct by hash(type, a, b, c)".into();
-            vec![spec("laws", 200_000, 5_000_000, 200, c_value::c08_case)]
+            vec![spec("laws", 200_000, 5_000_000, 200, c_value::c08_case), spec("t-value-t", 100_000, 3_000_000, 120, c_static::value_law_case)]
         }
         _ => {
             eprintln!("unknown property {id} for h_zvariant");
